@@ -10,10 +10,18 @@ out=/dev/shm/try_out_$name
 rm -rf "$out"; mkdir -p "$out"
 /verif/mc/worktree.sh remove "$wt" >/dev/null 2>&1
 /verif/mc/worktree.sh create "$wt" >/dev/null || { echo "worktree failed"; exit 2; }
+clean_rc=NA
+if [ -n "$SEED_FULL" ] && [ -f "$seed/demo.py" ]; then ( cd "$wt" && ./wtpy "$seed/demo.py" > "$out/demo_clean.log" 2>&1 ); clean_rc=$?; fi
 if ! git -C "$wt" apply "$seed/patch.diff"; then echo "RESULT $prop $seed patch-does-not-apply"; /verif/mc/worktree.sh remove "$wt" >/dev/null; exit 2; fi
 ( cd "$wt" && CHERAB_NCPU=8 ./wtpy setup.py build_ext -j8 --inplace > "$out/build.log" 2>&1 ) || { echo "RESULT $prop $seed build-failed"; tail -5 "$out/build.log"; /verif/mc/worktree.sh remove "$wt" >/dev/null; exit 2; }
 demo_rc=NA
 if [ -f "$seed/demo.py" ]; then ( cd "$wt" && ./wtpy "$seed/demo.py" > "$out/demo.log" 2>&1 ); demo_rc=$?; fi
+suite=NA
+if [ -n "$SEED_FULL" ]; then
+  ( cd "$wt" && OPENBLAS_NUM_THREADS=1 OMP_NUM_THREADS=1 ./wtpy pytest -q -p no:cacheprovider --timeout=900 --continue-on-collection-errors --ignore=_seed > "$out/suite.log" 2>&1 )
+  suite=$(tail -1 "$out/suite.log" | sed 's/ in [0-9.]*s.*//' | tr ' ' '_')
+  echo "CONFIRM $prop $(basename $seed) demo_clean_rc=$clean_rc demo_with_change_rc=$demo_rc suite_with_change=$suite"
+fi
 for c in $checks; do
   VERIF_REPO="$wt" VERIF_OUT="$out" /verif/bin/check $c --tier $tier > "$out/check_$c.log" 2>&1
   rc=$?
